@@ -796,8 +796,12 @@ class Runner:
             except (InternalError, OSError, ValueError):
                 pass
         if step.get("served", ".") != step.get("delivered", "."):
-            out.update({"isolation": True, "why": "a blocked client was not served by a push in its own database (or served something else): model %s, got %s"
-                        % (step.get("served"), step.get("delivered"))})
+            if "nothing-delivered" in step.get("delivered", ""):
+                out.update({"isolation": True, "why": "a blocked client was not served by a push in its own database: model %s, got %s"
+                            % (step.get("served"), step.get("delivered"))})
+            elif not out["isolation"]:
+                out["why"] = ("a blocked client was served in its own database, but not what the code variant delivers (order of pops/wake-ups: C13's subject): model %s, got %s"
+                              % (step.get("served"), step.get("delivered")))
         return out
 
     def blocking_scenario(self, r, a, gen):
